@@ -472,6 +472,10 @@ theorem btc_selection_is_filter (m : List (Nat × Status)) (d : List Nat) (hd : 
   intro n _
   simp [canExec]
 
+/-- the lookup asks the destination about the proposal's own origin domain and nonce and passes the answer on -/
+theorem lookup_faithful (source destination nonce : Nat) (a : Ans) :
+    PLookup source nonce a (lookupQuery source destination nonce) (lookupAnswer a) := ⟨rfl, rfl, rfl⟩
+
 /-! #### histories -/
 
 theorem hasErr_answersFrom (ex : List Nat) (f : Option Nat) (i : Nat) (ns : List Nat) :
